@@ -241,6 +241,7 @@ func (c04) Run(e *Env) {
 			})
 			agg.Reset()
 			e.Event("flush %d", nFlushes)
+			e.State("flushes=%d persisted-timer=%v persisted-hist=%v", minInt(nFlushes, 4), persistedTimer, persistedHist)
 			e.Overlap = true
 			_ = persistedTimer
 			_ = persistedHist
